@@ -31,6 +31,28 @@ def decorate(spec):
             if rq.random() < 0.35 and w.get("skills"):
                 names = sorted(w["skills"])
                 w["quality"] = {n: rq.choice([0.25, 0.5, 1.0]) for n in names if rq.random() < 0.7}
+    # rarely written inputs (these DO matter to the modelled behaviour; drawn here so that the earlier shape
+    # of every (seed, index) case is kept): a second link of another kind from the same predecessor, fixed-ID
+    # lists that are given but empty, due times on tail tasks
+    tasks = spec.get("tasks", [])
+    for t in tasks:
+        if t.get("inputs") and rq.random() < 0.15:
+            j, d = rq.choice(t["inputs"])
+            t["inputs"] = [list(e) for e in t["inputs"]] + [[j, rq.choice([k for k in (2, 2, 2, 1, 3, 0) if k != d])]]
+        if not t.get("auto"):
+            if t.get("fixW") is None and rq.random() < 0.03:
+                t["fixW"] = []
+            if t.get("need_fac") and t.get("fixF") is None and rq.random() < 0.05:
+                t["fixF"] = []
+        if t.get("due") is None and rq.random() < 0.25:
+            t["due"] = rq.randint(0, 12)
+    # what IDs look like must not matter: plain integers from 0 per kind (a falsy ID; equal IDs for objects of
+    # different kinds) or the same as strings
+    r = rq.random()
+    if r < 0.1:
+        spec["id_scheme"] = "int0"
+    elif r < 0.2:
+        spec["id_scheme"] = "str0"
     return spec
 
 
@@ -384,7 +406,7 @@ def gen_params(rng, spec):
     if rng.random() < 0.15:
         p["warmup"] = dict(rule=rng.randrange(9), autoFlag=rng.random() < 0.3, maxTime=rng.choice([2, 5, 40]),
                            absence=sorted(set(rng.choice([0, 1, 2, 4]) for _ in range(rng.randint(0, 2)))),
-                           backward=rng.random() < 0.3)
+                           backward=rng.random() < 0.3, due=rng.random() < 0.5)
         # between the two runs the per-resource calendars are edited (the earlier run saw other absence lists)
         p["warmup"]["edit_absence"] = rng.random() < 0.5
         # and the observed run may keep the state and/or the logs of the earlier one
